@@ -550,7 +550,10 @@ func (builder *builder[E]) IsZero(i1 frontend.Variable) frontend.Variable {
 	}
 
 	// m = -a*x + 1         // constrain m to be 1 if a == 0
-	c1 := builder.cs.AddR1C(builder.newR1C(builder.Neg(a), x[0], builder.Sub(m, 1)), builder.genericGate)
+	// m - 1 is built by hand: going through Sub could compress the linear expression (low
+	// CompressThreshold), which records a constraint using m before the one that defines it.
+	mMinusOne := expr.LinearExpression[E]{expr.NewTerm(0, builder.cs.Neg(builder.tOne)), m[0]}
+	c1 := builder.cs.AddR1C(builder.newR1C(builder.Neg(a), x[0], mMinusOne), builder.genericGate)
 
 	// a * m = 0            // constrain m to be 0 if a != 0
 	c2 := builder.cs.AddR1C(builder.newR1C(a, m, builder.cstZero()), builder.genericGate)
